@@ -184,8 +184,28 @@ def clash_injection(tier='quick', seed=0):
                 violations.append({'witness': 'F16', 'what': 'a reference used as function argument and at a disjoint type is accepted (arguments are not narrowed): { len(a) > 0 and a > 1 }'})
         except TypeError:
             pass
+    # one reference used at two disjoint types with loosely typed uses of it in between, in every order
+    # (compatibility of consecutive uses is not transitive: all uses must share one type)
+    import itertools
+    uses = {'n': '({r} + 1 > 0)', 'b': '{r}', 's': '({r} = "txt")', 'p': '({r} = other)', 'q': '(other2 != {r})'}
+    for r in ['a', 'xs[0]', 'm.f', '@A.v']:
+        for n in (2, 3, 4):
+            for combo in itertools.product('nbspq', repeat=n):
+                typed = {k for k in combo if k in 'nbs'}
+                if len(typed) < 2 or (n == 4 and (combo.count('p') + combo.count('q')) < 2):
+                    continue
+                text = '{ ' + ' and '.join(uses[k].format(r=r) for k in combo) + ' }'
+                cases += 1
+                try:
+                    pp.parse(text)
+                    if len(violations) < 8:
+                        violations.append({'witness': text, 'what': f'`{text}` uses {r} at disjoint types but is accepted'})
+                except TypeError:
+                    pass
+                except Exception:
+                    continue
     return {'obligations_n': 0, 'discharged_n': 0, 'violations': violations, 'faults': [],
-            'bounded': {'what': 'single definite clash injected at every argument position', 'bound': f'{len(templates)} templates x positions x {len(CLASH_NUM)} clashing fillers',
+            'bounded': {'what': 'single definite clash injected at every argument position; one reference at two disjoint types in every order with neutral uses between', 'bound': f'{len(templates)} templates x positions x {len(CLASH_NUM)} clashing fillers',
                         'cases': cases, 'distinct': cases, 'exhaustive': False},
             'samples': [{'text': '"s" + x > 0', 'expected': 'TypeError'}]}
 
@@ -200,10 +220,15 @@ def typed_generation(tier='quick', seed=0):
     inner = MessageType('I', fields={'z': INT8, 'w': STRINGS, 'b': BOOLEANS})
     m = MessageType('M', fields={'k': INT8, 'f': FLOAT64, 'flag': BOOLEANS, 's': STRINGS, 'arr': ArrayType('a', INT8),
                                  'inner': inner, 'msgs': ArrayType('ms', inner, length=2)}, constants={'C': (INT8, 1)})
-    schema = {'a': m, 'b': m}
-    nums = ['k', 'f', 'C', 'inner.z', 'arr[0]', 'arr[k]', 'msgs[1].z', '@B.k', '@B.inner.z', '1', '2.5']
-    bools = ['flag', 'inner.b', 'msgs[0].b', '@B.flag', 'True']
-    strs = ['s', 'inner.w', '@B.s', '"txt"']
+    # the aliased channel has a different schema (no field name in common with the current message)
+    inner2 = MessageType('I2', fields={'bz': INT8})
+    m2 = MessageType('M2', fields={'bk': INT8, 'bflag': BOOLEANS, 'bs': STRINGS, 'barr': ArrayType('ba', INT8),
+                                   'binner': inner2})
+    schema = {'a': m, 'b': m2}
+    nums = ['k', 'f', 'C', 'inner.z', 'arr[0]', 'arr[k]', 'msgs[1].z', '@B.bk', '@B.binner.bz', '@B.barr[k]',
+            '@B.barr[arr[0]]', 'arr[@B.bk]', '@B.barr[@B.bk]', '1', '2.5']
+    bools = ['flag', 'inner.b', 'msgs[0].b', '@B.bflag', 'True']
+    strs = ['s', 'inner.w', '@B.bs', '"txt"']
 
     def num(d):
         if d == 0 or rnd.random() < 0.3:
@@ -214,7 +239,7 @@ def typed_generation(tier='quick', seed=0):
         if k < 0.65:
             return f'abs({num(d - 1)})'
         if k < 0.8:
-            return f'len({rnd.choice(["arr", "@B.arr", "{1, 2}", "[1 to k]"])})'
+            return f'len({rnd.choice(["arr", "@B.barr", "{1, 2}", "[1 to k]"])})'
         return f'-{num(d - 1)}'
 
     def boolean(d):
@@ -241,7 +266,10 @@ def typed_generation(tier='quick', seed=0):
     for _ in range(n):
         phi = boolean(3)
         if '@B' in phi:
-            text = f'after b as B: no a {{{phi}}}'
+            # the alias is bound by the scope activator, or by the trigger of the pattern itself
+            text = rnd.choice([f'after b as B: no a {{{phi}}}', f'globally: b as B causes a {{{phi}}}',
+                               f'globally: b as B forbids a {{{phi}}} within 1 s', f'after b as B until a {{{phi}}}: some a',
+                               f'globally: a {{{phi}}} requires b as B', f'after b as B: a causes a {{{phi}}}'])
         else:
             text = f'globally: no a {{{phi}}}'
         if 'k' not in phi and 'f' not in phi and 'flag' not in phi and 'inner' not in phi and 'arr' not in phi \
